@@ -410,6 +410,16 @@ def run(ctx):
                     if "noqa" not in text and "ignore" not in text and "pylint" not in text and "nosec" not in text:
                         ctx.discrepancy("no-suppression-on-line:lazy-ignores", where, rep, files)
                     ctx.count("construct_checked:lazy-ignores")
+    # the same location contract over every lint_file call the repository's own tests make (a workload we did not write)
+    from .. import suite_mon
+    sm = suite_mon.run()
+    if sm.get("timeout") or not sm.get("mon"):
+        ctx.inconclusive_if(True, "repository suite under the location contract did not finish: %s" % str(sm)[:200])
+    else:
+        ctx.count("suite_contract_evaluations", sm["mon"]["contract_evaluations"])
+        ctx.inconclusive_if(sm["mon"]["contract_evaluations"] < 100, "the contract saw fewer than 100 lint_file calls during the repository suite")
+        for fl in sm["mon"]["failures"]:
+            ctx.discrepancy("suite-run:contract:%s:%s" % (fl[0], str(fl[1]).split(".")[0]), "during the repository's own tests Orchestrator.lint_file returned %r" % (fl,), {"suite_failure": fl}, {})
     c0 = cases[0]
     ctx.sample({"layout": c0["layout"], "commands": c0["cmds"], "files": sorted(c0["files"]), "facts": {k: (v if v["kind"] != "magic" else {"kind": "magic", "items": v["items"][:5]}) for k, v in c0["facts"].items()}})
     ctx.inconclusive_if(ctx.counters["violations_checked"] < 500, "fewer than 500 violations inspected")
